@@ -2,6 +2,7 @@ import ASV.Drv.J
 import ASV.Spec.Serial
 import ASV.Spec.ProtDna
 import ASV.Spec.SerialQual
+import ASV.Model.SerialModule
 namespace ASV.Drv.C10
 open Lean ASV ASV.Drv ASV.Serial
 
@@ -250,6 +251,40 @@ def annotOp (j : Json) : R Json := do
   | k => throw s!"C10: unknown annotation kind {k}"
 
 
+def pfamXOfJson (j : Json) : R PfamX := do
+  return ⟨← strF j "description", ← strF j "identifier", ← optOf asInt j "version", ← optOf pairsOfJson j "go"⟩
+
+/-- whole `PFAM_domain` / `aSModule` features outside any record: write, read back, write again -/
+def featOp (j : Json) : R Json := do
+  match ← strF j "kind" with
+  | "pfam" =>
+    let p : Pfam := ⟨← domOfJson (← fld j "d"), ← pfamXOfJson (← fld j "x")⟩
+    let b := p.toBio
+    let back : E Pfam := do Pfam.fromBio (← b)
+    let again : E Bio := do (← back).toBio
+    return jObj [("bio", eToJson (fun b => biosToJson [b]) b),
+                 ("back", eToJson (fun (q : Pfam) => jObj [("d", domToJson q.dom), ("x", pfamXToJson q.x)]) back),
+                 ("again", eToJson (fun b => biosToJson [b]) again),
+                 ("scope", toJson (domWFb .pfam p.dom && p.x.wf &&
+                   ["description", "db_xref", "gene_ontologies"].all (fun k => (Q.get? p.dom.feat.quals k).isNone)))]
+  | "module" =>
+    let doms ← listOf (fun e => do return (⟨← strF e "name", ← strF e "locus", ← intF e "strand"⟩ : Modules.FDomain)) (← fld j "domains")
+    let typ ← match Modules.ModType.fromString (← strF j "type") with
+      | some t => pure t
+      | none => throw "C10: unknown module type"
+    let f : ModF := ⟨← featOfJson (← fld j "feat"), ⟨doms, typ, ← boolF j "complete", ← boolF j "starter", ← boolF j "final", ← boolF j "iterative"⟩⟩
+    let known (n : String) : Option Modules.FDomain := doms.find? (·.name == n)
+    let b := f.toBio
+    let back : E ModF := do ModF.fromBio known (← b)
+    let again : E Bio := do (← back).toBio
+    let modJson (g : ModF) : Json :=
+      jObj [("feat", featToJson g.feat), ("domains", jStrs (g.m.domains.map (·.name))), ("type", Json.str g.m.type.str),
+            ("complete", toJson g.m.complete), ("starter", toJson g.m.starter), ("final", toJson g.m.final), ("iterative", toJson g.m.iterative)]
+    return jObj [("bio", eToJson (fun b => biosToJson [b]) b), ("back", eToJson modJson back),
+                 ("again", eToJson (fun b => biosToJson [b]) again)]
+  | k => throw s!"C10: unknown feature kind {k}"
+
+
 def handle (j : Json) : R Json := do
   let f ← strF j "f"
   match f with
@@ -308,6 +343,7 @@ def handle (j : Json) : R Json := do
   | "qualtext" => qualText j
   | "dom" => domOp j
   | "annot" => annotOp j
+  | "feat" => featOp j
   | "read" =>
     -- `Record.from_biopython` on an arbitrary feature list
     let bios ← listOf bioOfJson (← fld j "bios")
